@@ -26,11 +26,11 @@ for d in sorted(glob.glob(f"{ROOT}/seeded/C*-m*")):
     if len(summ) > 230: summ = summ[:227] + "..."
     confirmed = "yes" if conf.get("demo_with_change") == "FAIL" and conf.get("demo_on_unchanged_tree") == "PASS" and conf.get("builds") else "see meta"
     rows.append((name, ", ".join(os.path.basename(f) for f in files[:3]), summ.replace("|", "/"), confirmed,
-                 ", ".join(how) if how else "**none**", ", ".join(p for p in ran if p not in det) or "-"))
+                 (", ".join(how) if how else ("neutralised by a later fix (see meta)" if m.get("neutralised") else "**none**")), ", ".join(p for p in ran if p not in det) or "-"))
 out = ["| id | file(s) | change | demo confirmed | detected by (quick tier) | also run, silent |", "|---|---|---|---|---|---|"]
 out += ["| " + " | ".join(r) + " |" for r in rows]
 out.append("")
-out.append(f"{len(rows)} seeded changes, {sum(1 for r in rows if r[4] != '**none**')} detected by at least one registered quick check.")
+out.append(f"{len(rows)} seeded changes, {sum(1 for r in rows if r[4] != '**none**' and not r[4].startswith('neutralised'))} detected by at least one registered quick check; {sum(1 for r in rows if r[4].startswith('neutralised'))} no longer changes behaviour after a later repair.")
 txt = "\n".join(out)
 p = f"{ROOT}/DESIGN.md"
 s = open(p).read()
